@@ -48,10 +48,30 @@ def cases(tier, seed):
             for F in (0.0, 0.1, 0.6):
                 for fr in (None, v, z):
                     yield ploidy, H, reads, counts, F, fr
+    # concentrated posteriors (mode probability between ~0.9 and 1): reads drawn from a true genotype with a small
+    # error rate at increasing depth -- the functionals must still be the posterior means, not the mode's dosage
+    for ploidy, nh in ([(2, 3), (4, 3)] if tier == "quick" else [(2, 3), (3, 3), (4, 3), (6, 3), (4, 4)]):
+        N = 4
+        H = np.unique(rng.integers(0, 2, size=(60, N)).astype(np.int8), axis=0)
+        H = H[rng.permutation(len(H))][:nh]
+        true = np.sort(rng.integers(0, len(H), size=ploidy))
+        for depth in ((4, 8, 12, 16, 24) if tier == "quick" else (4, 6, 8, 10, 12, 16, 20, 24, 32, 48)):
+            for q in (0.65, 0.75, 0.85, 0.95):
+                reads = np.empty((depth, N, 2))
+                for r in range(depth):
+                    h = H[true[int(rng.integers(0, ploidy))]]
+                    for j in range(N):
+                        reads[r, j, h[j]] = q
+                        reads[r, j, 1 - h[j]] = 1 - q
+                counts = np.ones(depth, dtype=np.int64)
+                v = rng.random(len(H)) + 0.1
+                v /= v.sum()
+                for F, fr in ((0.0, None), (0.2, v)):
+                    yield ploidy, H, reads, counts, F, fr
 
 
 def check_exact_kernels(tier, seed):
-    ev = nontriv = 0
+    ev = nontriv = concentrated = 0
     fails = []
     samples = []
 
@@ -67,6 +87,7 @@ def check_exact_kernels(tier, seed):
         inp = {"ploidy": ploidy, "haplotypes": H.tolist(), "inbreeding": F, "frequencies": None if fr is None else fr.tolist(), "reads": reads.tolist(), "read_counts": counts.tolist()}
         ev += 1
         nontriv += gpm < 0.999
+        concentrated += 0.99 < gpm < 1 - 1e-6
         # full-array path
         llks = EX.genotype_likelihoods(reads=reads, ploidy=ploidy, haplotypes=H, read_counts=counts)
         probs = np.asarray(EX.genotype_posteriors(llks, ploidy, nh, F, fr), dtype=float)
@@ -90,7 +111,9 @@ def check_exact_kernels(tier, seed):
             bad("rt/posterior_mode_invariants", "mchap.calling.exact.posterior_mode", inp, {"sumAFP": float(sum(afp_s)), "GPM": float(gpm_s), "SPM": float(spm_s)}, "sum AFP = 1, GPM <= SPM <= 1")
         if len(samples) < 2:
             samples.append({"ploidy": ploidy, "haplotypes": nh, "GPM": gpm})
-    return {"bound": "shapes x reps x F {0,.1,.6} x 3 frequency vectors", "evaluations": ev, "distinct_nontrivial": nontriv, "failures": fails, "samples": samples, "exhaustive": False}
+    if concentrated == 0:
+        bad("rt/posterior_mode_domain", "rt.r_C03.cases", {}, 0, ">0", "harness: no case with 0.99 < GPM < 1-1e-6 generated")
+    return {"bound": "shapes x reps x F {0,.1,.6} x 3 frequency vectors + depth x read-quality sweep (%d cases with 0.99 < GPM < 1-1e-6)" % concentrated, "evaluations": ev, "distinct_nontrivial": nontriv, "failures": fails, "samples": samples, "exhaustive": False}
 
 
 def check_application_paths(tier, seed):
